@@ -140,6 +140,7 @@ func genSrcNoSyntax(t *rapid.T, thorough bool) Src {
 		cfg.MaxFiles, cfg.MaxPackages = 8, 5
 	}
 	ws := protogen.GenWorkspace(t, cfg)
+	addLegacyNested(t, ws)
 	for _, f := range ws.AllFiles() {
 		if f.Syntax == protogen.Proto2 && rapid.Bool().Draw(t, "drop-syntax-line") {
 			f.Syntax = protogen.SyntaxUnspecified
